@@ -340,7 +340,10 @@ class _rewrite_captured_vars(ast.NodeTransformer):
         return node
 
     def visit_Lambda(self, node: ast.Lambda) -> Any:
-        self._ignore_stack.append([a.arg for a in node.args.args])
+        # Every kind of parameter hides a captured variable of the same name
+        a = node.args
+        named = a.posonlyargs + a.args + a.kwonlyargs + [x for x in (a.vararg, a.kwarg) if x]
+        self._ignore_stack.append([x.arg for x in named])
         v = super().generic_visit(node)
         self._ignore_stack.pop()
         return v
